@@ -8,6 +8,8 @@ From Coq Require Import List NArith ZArith QArith Bool Floats Permutation Sorted
 From Pcfg Require Import ProbAlg F64 TextFile Counters CountersProofs LtallyProofs IoFloatFacts CountersF64 IoFacts.
 From Pcfg Require Import SmallGenProofsProbs.
 From PcfgGen Require Import Small_probs_gen.
+From Pcfg Require Import WriterRt WriterSpec WriterGenProofsStruct WriterGenProofs.
+From PcfgGen Require Import WriterStruct_gen Writer_gen.
 Import ListNotations.
 
 (* A list written from the tally of an item sequence: the lines are
@@ -173,6 +175,190 @@ Example C06_source_F64_example :
   [([97], 0x1.999999999999ap-2%float); ([98], 0x1.999999999999ap-2%float); ([99], 0x1.999999999999ap-3%float)]%N.
 Proof. exact small_F64_example. Qed.
 
+(* ---- translator tie (harness/translate_writer.py, gen/WriterStruct_gen.v): the Python text of
+   base_structure_creation (lib_trainer/base_structure.py), prince_evaluation
+   (lib_trainer/prince_metrics.py), the tail of PCFGPasswordParser.parse that counts the
+   structure, and the Markov block of run_trainer, translated on every run, ARE the model's
+   supported / structure, PRINCE tally, count_one and with_markov ---- *)
+
+(* on a section list whose sections are labelled (what the detectors leave) *)
+Theorem C06_source_base_structure_creation_is_model : forall sl : list section, Forall labelled sl ->
+  py_base_structure_creation sl = Ok (supported (labels_of sl), structure (labels_of sl)).
+Proof. exact struct_base_structure_creation_eq. Qed.
+
+(* a section without a label: the function raises, no structure is counted *)
+Theorem C06_source_base_structure_creation_raises : forall sl : list section,
+  (exists s, In s sl /\ ~ labelled s) -> exists e, py_base_structure_creation sl = Raise e.
+Proof. exact struct_base_structure_creation_raises. Qed.
+
+Theorem C06_source_prince_evaluation_is_model : forall (c : list (str * N)) (sl : list section),
+  py_prince_evaluation c sl = Ok (fold_left (fun c l => incr l c) (labels_of sl) c).
+Proof. exact struct_prince_evaluation_eq. Qed.
+
+Theorem C06_source_parse_tail_is_model : forall (p b r : list (str * N)) (sl : list section), Forall labelled sl ->
+  let s' := count_one {| sc_base := b; sc_raw := r; sc_prince := p |} (labels_of sl) in
+  py_parse_tail p b r sl = Ok (true, sc_prince s', sc_base s', sc_raw s').
+Proof. exact struct_parse_tail_eq. Qed.
+
+(* with OMEN n-grams the block goes on with the model's counter; without them and with a
+   coverage other than 1 run_trainer returns False before anything is saved *)
+Theorem C06_source_markov_block_is_model : forall (O : numops) (cov : num O) (n : N) (omen c : counter O),
+  (omen <> [] -> py_run_trainer_markov_block cov n omen c = Norm (with_markov cov n c)) /\
+  py_run_trainer_markov_block cov n [] c = (if neqb O cov (none O) then Norm c else Retn false).
+Proof. exact (fun O cov n omen c => conj (struct_markov_block_eq O cov n omen c) (struct_markov_block_no_omen O cov n c)). Qed.
+
+(* the calls of run_trainer, in the order of the source: N is file_input.num_passwords of a
+   finished pass, one parser, its pass, the Markov block, then save_pcfg_data(base_directory,
+   pcfg_parser, program_info['encoding'], program_info['save_sensitive']) *)
+Theorem C06_source_run_trainer_order : events_ok py_run_trainer_events = true.
+Proof. exact struct_run_trainer_events_ok. Qed.
+
+(* C06_markov_count over the translated block *)
+Theorem C06_source_markov_count : forall (cov : Q) (n : N) (omen c : counter QNum), omen <> [] ->
+  exists c', @py_run_trainer_markov_block QNum cov n omen c = Norm c' /\
+  ((cov == 1)%Q -> c' = c) /\
+  ((cov == 0)%Q -> c' = [(M_key, 1%Q)]) /\
+  (~ (cov == 1)%Q -> ~ (cov == 0)%Q ->
+     c' = dict_set M_key (inject_Z (Z.of_N n) / cov - inject_Z (Z.of_N n))%Q c /\
+     (inject_Z (Z.of_N n) / cov - inject_Z (Z.of_N n) == inject_Z (Z.of_N n) * (1 / cov - 1))%Q /\
+     (~ In M_key (map fst c) -> c' = c ++ [(M_key, (inject_Z (Z.of_N n) / cov - inject_Z (Z.of_N n))%Q)])) /\
+  ((0 < cov)%Q -> (cov < 1)%Q -> (0 < n)%N -> ~ In M_key (map fst c) -> (total c == inject_Z (Z.of_N n))%Q ->
+     exists p, In (M_key, p) (calc_probs c') /\ (p == 1 - cov)%Q).
+Proof. exact struct_markov_count. Qed.
+
+(* C06_unsupported_only_raw over the translated tail of parse, folded over the passwords *)
+Theorem C06_source_unsupported_only_raw : forall pws : list (list section), Forall (Forall labelled) pws ->
+  let S := fold_tail py_parse_tail pws in
+  let L := map labels_of pws in
+  (forall s, In s (map fst (sc_base S)) -> exists ls, In ls L /\ supported ls = true /\ s = structure ls) /\
+  (forall ls, In ls L -> supported ls = true -> In (structure ls) (map fst (sc_base S))) /\
+  (forall ls, In ls L -> In (structure ls) (map fst (sc_raw S))) /\
+  (Forall (fun ls => forallb wf_label ls = true) L ->
+     forall s, In s (map fst (sc_base S)) -> ~ In 69%N s /\ ~ In 87%N s) /\
+  (forall ls, In ls L -> supported ls = false -> In 69%N (structure ls) \/ In 87%N (structure ls)) /\
+  sc_base S = tally (map structure (filter supported L)) /\
+  sc_raw S = tally (map structure L) /\
+  sc_prince S = tally (List.concat L).
+Proof. exact struct_unsupported_only_raw. Qed.
+
+(* the hypotheses are satisfiable and the generated functions run *)
+Example C06_source_struct_example :
+  let l1 : list section := [([112;97;115;115], Some [65;52]); ([33], Some [79;49]); ([49;50], Some [68;50])]%N in
+  let l2 : list section := [([97;64;98;46;99;111;109], Some [69])]%N in
+  Forall (Forall labelled) [l1; l2] /\
+  py_base_structure_creation l1 = Ok (true, [65;52;79;49;68;50]%N) /\
+  py_base_structure_creation l2 = Ok (false, [69]%N) /\
+  sc_base (fold_tail py_parse_tail [l1; l2]) = [([65;52;79;49;68;50], 1)]%N /\
+  sc_raw (fold_tail py_parse_tail [l1; l2]) = [([65;52;79;49;68;50], 1); ([69], 1)]%N /\
+  @py_run_trainer_markov_block QNum (3 # 5)%Q 3 [([49]%N, 1%Q)] [([65;52]%N, 3%Q)] = Norm [([65;52]%N, 3%Q); ([77]%N, (3 / (3 # 5) - 3)%Q)].
+Proof. exact struct_example. Qed.
+
+(* ---- translator tie (gen/Writer_gen.v): the Python text of calculate_and_save_counter,
+   save_indexed_counters and save_pcfg_data (lib_trainer/save_pcfg_data.py), translated on every
+   run, with the translated calculate_probabilities, over the file system of WriterRt.v (a map from
+   paths to text; os.walk + os.unlink; the codec as the oracle encb; str(float) as the oracle repr) ---- *)
+
+(* the file is created or truncated and holds str(value) TAB str(count / total) LF for the items in
+   most_common order; a line the codec cannot encode ends the writing, the function returns False *)
+Theorem C06_source_calculate_and_save_counter_is_model :
+  forall (O : numops) (repr : num O -> str) (encb : str -> N -> bool) (nmul : num O -> num O -> num O) (ud : str * num O)
+         (p : path) (c : counter O) (enc : str) (fs : fsys),
+  py_calculate_and_save_counter repr encb (py_calculate_probabilities nmul ud) p c enc fs =
+  if encodable repr encb enc (calc_probs c) then (Ok true, fs_set p (write_text repr (calc_probs c)) fs)
+  else (Ok false, fs_set p (write_text repr (encodable_prefix repr encb enc (calc_probs c))) fs).
+Proof. exact (@source_save_counter_eq). Qed.
+
+(* binary64: that text is TextFile.write_file, the writer C07's round trips are about *)
+Theorem C06_source_text_is_write_file : forall (repr : float -> str) (l : list (str * float)),
+  @write_text FNum repr l = write_file repr l.
+Proof. exact write_text_F64. Qed.
+
+(* the folder is emptied at every depth (whatever it held), then holds one file per key, named
+   str(key).txt, with the lines of its counter: Counters.save_indexed; the rest of the disk stays *)
+Theorem C06_source_save_indexed_counters_is_model :
+  forall (O : numops) (repr : num O -> str) (encb : str -> N -> bool) (nmul : num O -> num O -> num O) (ud : str * num O)
+         (folder : path) (cl : list (pykey * counter O)) (enc : str) (fs : fsys),
+  fs_wf fs ->
+  (all_encodable repr encb enc cl = true ->
+   py_save_indexed_counters repr encb (py_calculate_probabilities nmul ud) folder cl enc fs =
+   (Ok true, fs_install folder (folder_texts repr (save_indexed [] (str_keys cl))) fs)) /\
+  (all_encodable repr encb enc cl = false ->
+   exists fs', py_save_indexed_counters repr encb (py_calculate_probabilities nmul ud) folder cl enc fs = (Ok false, fs')).
+Proof. exact (@source_save_indexed_eq). Qed.
+
+(* the whole ruleset is Counters.save_pcfg_data, installed folder by folder below the base directory *)
+Theorem C06_source_save_pcfg_data_is_model :
+  forall (O : numops) (repr : num O -> str) (encb : str -> N -> bool) (nmul : num O -> num O -> num O) (ud : str * num O)
+         (base : path) (P : pcounters) (sens : bool) (cov : num O) (n : N) (enc : str) (fs : fsys),
+  fs_wf fs ->
+  let pp := parser_of O P (with_markov cov n (of_counts (sc_base (pc_structs P)))) in
+  (ruleset_encodable repr encb enc (save_pcfg_data O P sens cov n) = true ->
+   py_save_pcfg_data repr encb (py_calculate_probabilities nmul ud) base pp enc sens fs =
+   (Ok true, install_all repr base (save_pcfg_data O P sens cov n) fs)) /\
+  (ruleset_encodable repr encb enc (save_pcfg_data O P sens cov n) = false ->
+   exists fs', py_save_pcfg_data repr encb (py_calculate_probabilities nmul ud) base pp enc sens fs = (Ok false, fs')).
+Proof. exact (@source_save_pcfg_data_cases). Qed.
+
+(* C06_each_once_sorted for the file the translated writer leaves on disk *)
+Theorem C06_source_file_each_once_sorted : forall (repr : num QNum -> str) (encb : str -> N -> bool)
+    (nmul : num QNum -> num QNum -> num QNum) (ud : str * num QNum)
+    (p : path) (enc : str) (fs : fsys) (items : list str), items <> [] ->
+  let c := @of_counts QNum (tally items) in
+  @encodable QNum repr encb enc (calc_probs c) = true ->
+  exists file : counter QNum,
+    @py_calculate_and_save_counter QNum repr encb (@py_calculate_probabilities QNum nmul ud) p c enc fs =
+      (Ok true, fs_set p (@write_text QNum repr file) fs) /\
+    file = map (fun kv => (fst kv, (snd kv / total c)%Q)) (most_common c) /\
+    Permutation (most_common c) c /\
+    NoDup (map fst file) /\
+    (forall v, In v (map fst file) <-> In v items) /\
+    (forall v q, In (v, q) file ->
+       (q == inject_Z (Z.of_nat (count_str v items)) / inject_Z (Z.of_nat (length items)))%Q) /\
+    StronglySorted (fun a b => (snd b <= snd a)%Q) file /\
+    (forall q : Q, filter (fun kv => Qeq_bool (snd kv) q) (most_common c) = filter (fun kv => Qeq_bool (snd kv) q) c) /\
+    map fst c = nodup_first items.
+Proof. exact source_file_each_once_sorted. Qed.
+
+(* C06_length_indexed for the folder the translated writer leaves on disk: one file per length, in
+   first-seen order, named <length>.txt, each the list of the items of that length *)
+Theorem C06_source_length_indexed :
+  forall (O : numops) (repr : num O -> str) (encb : str -> N -> bool) (nmul : num O -> num O -> num O) (ud : str * num O)
+         (folder : path) (enc : str) (fs : fsys) (l : list str),
+  fs_wf fs -> all_encodable repr encb enc (klkeys (ltally l)) = true ->
+  exists fs', py_save_indexed_counters repr encb (py_calculate_probabilities nmul ud) folder (klkeys (ltally l)) enc fs = (Ok true, fs') /\
+    fs_list folder fs' =
+    map (fun n => (file_name (dec_of_N n), write_text repr (calc_probs (of_counts (tally (filter (len_is n) l))))))
+        (nodup_first_N (map slen l)).
+Proof. exact (@source_length_indexed). Qed.
+
+(* the hypotheses are satisfiable and the generated writers run *)
+Example C06_source_save_example :
+  let repr : num QNum -> str := fun q => if Qeq_bool q (1 # 2) then [48;46;53]%N else [49;46;48]%N in
+  let encb (enc : str) (c : N) : bool := N.ltb c 128 in
+  let calc := @py_calculate_probabilities QNum Qmult ([], 0%Q) in
+  let folder : path := [[82]; [65]]%N in
+  let fs0 : fsys := [([[82]; [65]; [57;46;116;120;116]], [120]); ([[82]; [65]; [115]; [111]], [121]); ([[82]; [68]; [49]], [122])]%N in
+  let cl : list (pykey * counter QNum) := [(KInt 1, [([97]%N, 1%Q); ([98]%N, 1%Q)]); (KInt 2, [([99;100]%N, 3%Q)])] in
+  fs_wf fs0 /\ all_encodable repr encb [] cl = true /\
+  py_save_indexed_counters repr encb calc folder cl [] fs0 =
+    (Ok true, [([[82]; [68]; [49]], [122]);
+               ([[82]; [65]; [49;46;116;120;116]], [97;9;48;46;53;10;98;9;48;46;53;10]);
+               ([[82]; [65]; [50;46;116;120;116]], [99;100;9;49;46;48;10])]%N) /\
+  fst (py_save_indexed_counters repr encb calc folder [(KInt 1, [([233]%N, 1%Q)])] [] fs0) = Ok false.
+Proof. exact source_save_example. Qed.
+
+Print Assumptions C06_source_calculate_and_save_counter_is_model.
+Print Assumptions C06_source_save_indexed_counters_is_model.
+Print Assumptions C06_source_save_pcfg_data_is_model.
+Print Assumptions C06_source_file_each_once_sorted.
+Print Assumptions C06_source_length_indexed.
+Print Assumptions C06_source_base_structure_creation_is_model.
+Print Assumptions C06_source_prince_evaluation_is_model.
+Print Assumptions C06_source_parse_tail_is_model.
+Print Assumptions C06_source_markov_block_is_model.
+Print Assumptions C06_source_run_trainer_order.
+Print Assumptions C06_source_markov_count.
+Print Assumptions C06_source_unsupported_only_raw.
 Print Assumptions C06_each_once_sorted.
 Print Assumptions C06_source_calculate_probabilities_is_model.
 Print Assumptions C06_source_each_once_sorted.
